@@ -217,6 +217,17 @@ def check(case):
             return out
         if tokens is not None and not _tokens_ok(out, tokens, name):
             return out
+        if tokens:
+            # a window of the stream (as when a later bar is detokenised on its own): the detokeniser then starts from
+            # its built-in running values instead of explicit trk/val/vel tokens
+            try:
+                window = tok.detokenise(tokens[r % len(tokens):])
+            except Exception as e:
+                out.inconclusive = f"stage-raised:{name}-window:{type(e).__name__}"
+                return out
+            for x in window:
+                if not _scan(out, x, where + ":window"):
+                    return out
         for x in pool:
             if not _scan(out, x, where):
                 return out
